@@ -154,13 +154,11 @@ def make_line(rng, form, section, hour=None):
         if k < 0.2:
             v = F.clock(rng)
         elif k < 0.45:      # the value of a NAME : VALUE line is everything after the first colon, further colons included
-            v = rng.choice(["depth ref: KB", "1:2", "a: b: c", "14:30 23-JAN-2001 : night shift", "x :y", "ratio 1:100 (approx.)", F.text(rng, colons=False) + ": " + F.text(rng, colons=False)]).strip()
+            v = rng.choice(["depth ref: KB", "1:2", "a: b: c", "see.. remark: x", "a..b: c", "x: y..z", "14:30 23-JAN-2001 : night shift", "x :y", "ratio 1:100 (approx.)", F.text(rng, colons=False) + ": " + F.text(rng, colons=False)]).strip()
         p = [rng.choice(F.PADS) for _ in range(4)]
         line = "%s%s%s:%s%s%s" % (p[0], m, p[1], p[2], v, p[3])
         if "." in line[:line.find(":")]:
             return None
-        if ".." in v and ":" in v:
-            return None        # "a line without a period": a value with a double period *and* a further colon is outside both stated forms
         return line, {"name": m, "unit": "", "value": v, "descr": ""}, (form, _cls(v), tuple(map(_pc, p)))
     u = F.unit(rng)
     extra = {}
